@@ -101,7 +101,59 @@ func runC08(c *ctx) error {
 			size = 9 + rng.Intn(32) // beyond Go's small-map threshold
 		}
 		m := c08Map(rng, size, 1+rng.Intn(4))
-		desc := map[string]any{"map": vl.Enc(dump.Any(m))}
+		// one map in three has a history behind it: deletions and renames (onto fresh names and onto names another
+		// entry has) through the API; what it holds afterwards is tracked in a plain list of pairs, and the encoders
+		// must write exactly that list
+		var history []string
+		var modelKeys []string
+		initial := vl.Enc(dump.Any(m))
+		if i%3 == 1 && m.Len() >= 3 {
+			modelKeys = mapKeys(m)
+			idxOf := func(k string) int {
+				for j, x := range modelKeys {
+					if x == k {
+						return j
+					}
+				}
+				return -1
+			}
+			panicked, msg := guard(func() {
+				for j, nOps := 0, 2+rng.Intn(len(modelKeys)); j < nOps && len(modelKeys) >= 2; j++ {
+					old := modelKeys[rng.Intn(len(modelKeys))]
+					switch rng.Intn(3) {
+					case 0:
+						m.Delete(old)
+						modelKeys = append(modelKeys[:idxOf(old):idxOf(old)], modelKeys[idxOf(old)+1:]...)
+						history = append(history, "Delete("+old+")")
+					default:
+						nw := fmt.Sprintf("renamed-%d", j)
+						if rng.Intn(2) == 0 {
+							nw = modelKeys[rng.Intn(len(modelKeys))] // a name another entry (or this one) has
+						}
+						v, _ := m.Get(old)
+						m.Replace(old, nw, v)
+						if nw != old {
+							if at := idxOf(nw); at >= 0 {
+								modelKeys = append(modelKeys[:at:at], modelKeys[at+1:]...)
+							}
+							modelKeys[idxOf(old)] = nw
+						}
+						history = append(history, "Replace("+old+", "+nw+")")
+					}
+				}
+			})
+			c.res.Hist("programmatic.history-with-deletes-and-renames")
+			c.res.OracleChecks++
+			if panicked {
+				c.res.Fail(core.OracleFailure{What: "a history of Delete / Replace on a programmatic map panics", Input: map[string]any{"map before": initial, "history": history}, Got: msg})
+				continue
+			}
+			if got := mapKeys(m); !reflect.DeepEqual(got, modelKeys) && !(len(got) == 0 && len(modelKeys) == 0) {
+				c.res.Fail(core.OracleFailure{What: "after a history of Delete / Replace the map does not list the entries a plain list of pairs holds", Input: map[string]any{"map before": initial, "history": history}, Got: fmt.Sprint(got), Want: fmt.Sprint(modelKeys)})
+				continue
+			}
+		}
+		desc := map[string]any{"map": vl.Enc(dump.Any(m)), "history": history}
 		c.res.Case(vl.Enc(dump.Any(m)), m.Len() > 1)
 		c.res.Hist(fmt.Sprintf("size>=9:%v", size >= 9))
 		if i < 2 {
